@@ -41,7 +41,7 @@ PROPS = {
         ],
     ),
     "C10": dict(
-        families=[dict(name="own")],
+        families=[dict(name="own"), dict(name="hostile", args=["-specs", "5,11"])],
         level_text="Theorems C10_invariant, C10_exact, C10_find_dir_owner, C10_order_independent, C10_owner_unique, "
                    "C10_reload, C10_intra_stage(+_complete) over the model of FindDirArtifactOwnerForPath / Validate / "
                    "AddStage / RemoveStage / index reload: every reachable index has pairwise non-overlapping outputs, "
